@@ -714,3 +714,56 @@ SPECS["C17"] = Spec(
     bounds=lambda tier: {"status": "[100,999]", "charset": "0..2 bytes", "body": "0..%d bytes" % (3 if tier == "quick" else 5)},
     rule="one job per render method; all option combinations",
 )
+
+
+# --------------------------------------------------------------------------- C06
+C06_ROUTES = ["/a", "/a/?b", "/{x}", "/a{x}b", "/{x: /r/}", "/{x: **}", "/{x: **, capture: 3}", "/{a: /r/, b: /s/}-{c}/?{d: lit}",
+              "/{**}/{x:    /r/,y:/s/}"]
+
+
+def c06_jobs(tier, seed):
+    return [{"pkg_short": "route", "body": "VH_C06_render", "params": {"route": r, "toklen": 2 if tier == "quick" else 3}, "max_paths": 300000}
+            for r in C06_ROUTES]
+
+
+def c06_post(tier, seed):
+    import c06lang
+    return c06lang.analyse(tier, seed)
+
+
+SPECS["C06"] = Spec(
+    "C06", ["route/parse.go", "route/oracle.go", "route/c06.go"], c06_jobs, post=c06_post,
+    assumptions=[
+        "REDUCED CLAIM (DESIGN.md §4): totality and acceptance are not decided on participle's code (reflection-built parser, not executable by the interpreter). Decided instead:",
+        "(a) rendering clause on the real code: Segment.String/Route.String executed from SSA on ASTs of 9 derivation shapes with every token's content symbolic (any bytes), against the canonical concatenation of the statement; stable under the sync.Once cache",
+        "(b) acceptance on a translation of flamego's own declarative artefacts, re-extracted from source each run (go/ast): the lexer.Rules literal gives the character classes of Ident and Regex; the parser struct tags give a token-level grammar; the README EBNF is parsed into the same two levels. The solver (z3-new 5.1.0, regex theory; z3 4.8.12 second opinion) decides class equality and token-level language equality up to the stated length, modulo what the stateful lexer can emit (adjacent Ident tokens; ':' after a value without ',' - two forbidden patterns derived by reading the rules)",
+        "(c) every witness, every class difference and >= 500 solver-drawn strings (inside and outside both languages, plus arbitrary bytes) are run through the real Parser.Parse: no panic; accepted iff in the README language; rendering equals the input with spacing normalised; the canonical form parses and renders to itself; the AST equals that of an independent recursive-descent parser. A faithful simulation of the stateful lexer (from the extracted rules) + token grammar must agree with the real parser on all of them, otherwise the run is inconclusive",
+        "a defect of participle itself that the samples miss is invisible",
+    ],
+    bounds=lambda tier: {"token_strings": "length <= %d over {i,g,/,?,{,},:,comma,blank}" % (10 if tier == "quick" else 14),
+                         "sample_strings": "length <= %d" % (10 if tier == "quick" else 12), "render_token_len": "0..%d bytes per token" % (2 if tier == "quick" else 3)},
+    rule="(a) one job per derivation shape; (b) four class queries and two token-language queries; (c) solver-drawn samples",
+)
+
+
+# --------------------------------------------------------------------------- C05
+def c05_jobs(tier, seed):
+    n = 3 if tier == "quick" else 5
+    jobs = []
+    for prefix in ("/", "/s/", "/r/", "/m/", "/o", "/h", "/n/", "/g/c"):
+        jobs.append({"pkg_short": "flamego", "setup": "VH_C05_setup", "body": "VH_C05_request",
+                     "params": {"prefix": prefix, "n": n if prefix != "/" else n + 1}, "max_paths": 300000})
+    return jobs
+
+
+SPECS["C05"] = Spec(
+    "C05", ["flamego/c13.go", "flamego/c05.go", "route/parse.go"], c05_jobs,
+    assumptions=[
+        "REDUCED CLAIM (DESIGN.md §3/C05, §4): thread interleavings are NOT explored. Decided is a sequential sufficient condition: during a request, for every input within the bounds, every store the framework executes targets memory allocated after the request entered ServeHTTP, or happens inside sync.Once.Do / under a held sync.Mutex / through sync/atomic. Then concurrent requests share only memory none of them writes unsynchronised, hence no data race on framework state and each response is a function of its own request (non-interference)",
+        "the monitor is an assertion at every Store, MapUpdate, delete, in-place append, copy and reflect.Value.Set executed by the interpreter; shared memory = everything reachable from package globals (through them the application, its router trees, routes and injector) when the request starts",
+        "one application with a static-shortcut route, regex, match-all, optional, header-constrained and named routes, a Group with a Combo, request-scoped Map, Recovery, Renderer, URL building and a custom NotFound; the same request is served twice and must give the same response",
+        "loggers and services the application maps itself are stubs; user handlers' own sharing, Flame.Run/Stop are outside the claim; stores performed by intrinsics (sync.Pool, strings.Builder) are not monitored",
+    ],
+    bounds=lambda tier: {"request_path": "route prefix + 0..%d arbitrary bytes" % (3 if tier == "quick" else 5), "method": "GET or POST", "header": "present or not"},
+    rule="one job per route kind; every request within the bound; each Store executed is one monitored obligation",
+)
